@@ -1,6 +1,6 @@
 SETUP_CMD = "true"
 HOOKS = dict(guard="LHASA_VERIF", enable="harnesses are compiled by goto-cc with -DLHASA_VERIF from a scratch copy of /repo/lib and /repo/src",
-             baseline_off_cmd="make -C /repo check", source_commits=["136a89f60784139c9867484ef2cdc9ac67acc2e9", "8d62620462c06f1bf766b8060b02de181d084656"], add_only=True)
+             baseline_off_cmd="make -C /repo check", source_commits=["136a89f60784139c9867484ef2cdc9ac67acc2e9", "8d62620462c06f1bf766b8060b02de181d084656", "8019cf9747f46a7ae89ebdae9b13010e24dc8164"], add_only=True)
 ENGINES = [dict(name="cbmc", path="/verif/bin/check", serves_properties=["C%02d" % i for i in range(1, 21)],
                 kind_free_text="python driver: copies /repo sources, goto-cc + cbmc 6.11 per harness, replays counterexamples natively (gcc+ASan/UBSan)")]
 NOTES = ("See DESIGN.md (section 9 describes the machinery as built). Every verdict is a CBMC result over the real sources re-encoded from /repo on each run, within the bounds listed per "
